@@ -1,6 +1,8 @@
 import Props.SchedTie
 import TaskModel.Sched.WaiterLemmas
 import Props.C14
+import TaskModel.Sched.MonVal
+import TaskModel.Sched.ProgInv
 /-!
 # C02 — Commands of a task run one at a time, in order; task calls are synchronous
 
@@ -18,6 +20,13 @@ interleavings, failures and cancellations):
 
 The loop-order and call-variable parts of C02 (`for:` lists, matrices, variables seen by
 the callee) live in the `Vars` domain: this file is completed by `Props/C02Vars.lean`.
+
+Which statements say what (audit, session 3).  `C02_callRet_after_exit` restates the guard of `callRet` (the called
+activation has exited).  Trace-level — invariants of every reachable configuration, proved by induction over the
+accepted log: `C02_seq`, `C02_seq_all` (monitor soundness), `C02_descendants_done`, `C02_call_sync`,
+`C02_no_entry_skipped` / `C02_body_complete` (the started entries are exactly the non-deferred entries of the
+PROGRAM below the loop position; all of them when the body ran to its end).  `C02_callee_sees_passed`: semantics of
+the value monitor (`C02v`), which runs beside the acceptor.
 -/
 namespace Props.C02
 open TaskModel.Sched.S2
@@ -247,5 +256,67 @@ example : (replay progO { parallel := true } (init 2) (runO.take 20 ++ [⟨3, .w
 -- the monitor accepts every activation of the run, and is not trivially true
 example : seqMonAll run1 = true := by decide
 example : (seqMon.run seqMon.init (evsOf 2 (run1.take 24 ++ [⟨2, .cmdStart 2 none false⟩]))).isSome = false := by decide
+
+/-! ## the callee sees what the reference passed
+
+`Sched.MonVal`: every reference carries a `Pass` for the variable the generated programs hand around;
+`valsOf` runs the acceptor's own `step` and records, at every `enter`, the value the new activation is
+called with; the driver compares it with what the activation's commands printed (verdict `C02v`). -/
+
+/-- **C02 (call variables, executor side).** A dependency or `task:` entry that passes a literal hands the
+callee exactly that literal; one that passes nothing leaves the variable unset; one that hands on the
+referrer's own value hands on what the referrer was called with (the empty string if it was not set). -/
+theorem C02_callee_sees_passed (Ps : Passes) (c : Config) (vals : List (Nat × Nat)) (p i : Nat) (d : Bool) (px : Act)
+    (hp : c.act? p = some px) :
+    (∀ n, cmdPass Ps px.task i = .lit n → expectedVal Ps c vals (.call p i d) = valNum n) ∧
+    (cmdPass Ps px.task i = .none → expectedVal Ps c vals (.call p i d) = valUnset) ∧
+    (∀ v, cmdPass Ps px.task i = .own → vals.lookup p = some v → v ≠ valUnset → expectedVal Ps c vals (.call p i d) = v) ∧
+    (∀ n, depPass Ps px.task i = .lit n → expectedVal Ps c vals (.dep p i) = valNum n) := by
+  refine ⟨?_, ?_, ?_, ?_⟩
+  · intro n h; simp [expectedVal, hp, h, passVal]
+  · intro h; simp [expectedVal, hp, h, passVal]
+  · intro v h hv hne; simp [expectedVal, hp, h, passVal, hv, hne]
+  · intro n h; simp [expectedVal, hp, h, passVal]
+
+/-- a call given on the command line is handed nothing -/
+theorem C02_top_gets_nothing (Ps : Passes) (c : Config) (vals : List (Nat × Nat)) (k : Nat) :
+    expectedVal Ps c vals (.top k) = valUnset := rfl
+
+/-! ## no entry is skipped (trace-level, every reachable configuration)
+
+`C02_seq` says the started entries have increasing indices and are closed one by one — it would also hold of
+an executor that LEFT OUT an entry.  `S2.ProgInv` ties `started` to the command list. -/
+
+/-- **C02 (no entry skipped, none twice).** In every reachable configuration the non-deferred entries an activation
+has started are exactly the non-deferred entries of its task's command list below the position of its loop —
+including the entry at that position while it is open and after it failed. -/
+theorem C02_no_entry_skipped (P : Program) (F : Flags) (n : Nat) (tr : List Label) (c : Config)
+    (h : replay P F (init n) tr = some c) (a : Nat) (x : Act) (hx : c.act? a = some x) :
+    x.started = plainBelow x.def_.cmds x.idx ∨
+    (x.started = plainBelow x.def_.cmds (x.idx + 1) ∧ isDefAt x.def_.cmds x.idx = false ∧ x.idx < x.def_.cmds.length) :=
+  (S2.ProgInv_sound P F n tr c h a x hx).any
+
+/-- **C02 (the whole list).** An activation that passed its guards, is past its command loop and has no failure
+recorded has started EVERY non-deferred entry of its task, in order, each once. -/
+theorem C02_body_complete (P : Program) (F : Flags) (n : Nat) (tr : List Label) (c : Config)
+    (h : replay P F (init n) tr = some c) (a : Nat) (x : Act) (hx : c.act? a = some x)
+    (hg : Ev.guardsPassed ∈ evsOf a tr) (hp : S2.postLoop x.phase = true) (ho : x.out = {}) :
+    x.started = plainBelow x.def_.cmds x.def_.cmds.length :=
+  (S2.loop_complete P F n tr c h a x hx hg hp ho).2.1
+
+/-- non-vacuity of `C02_body_complete` / `C14_all_run_complete` / `C07_all_work_done`: a task with entries
+`cmd, defer, cmd` runs to its end — the hypotheses hold of the final configuration and the conclusion names
+entries 0 and 2 (started) and 1 (deferred, run) -/
+private def progB : Program := [{ cmds := [.shell 0 false false, .shell 0 false true, .shell 0 false false] }]
+private def runB : List Label :=
+  [⟨1, .enter (.top 0) 0⟩, ⟨1, .acquire⟩, ⟨1, .depsRelease⟩, ⟨1, .depsReacq⟩, ⟨1, .depsDone .ok⟩, ⟨1, .guardsPassed⟩,
+   ⟨1, .cmdStart 0 none false⟩, ⟨1, .cmdEnd 0 .ok⟩, ⟨1, .cmdStart 2 none false⟩, ⟨1, .cmdEnd 2 .ok⟩,
+   ⟨1, .cmdStart 1 none true⟩, ⟨1, .cmdEnd 1 .ok⟩, ⟨1, .release⟩, ⟨1, .exit⟩]
+example : ((replay progB {} (init 1) runB).bind (·.act? 1)).map (fun x => (x.phase, x.out, x.started, x.ran, x.idx)) =
+    some (.done, {}, [0, 2], [1], 3) := by decide
+example : Ev.guardsPassed ∈ evsOf 1 runB := by decide
+example : plainBelow progB.head!.cmds 3 = [0, 2] ∧ (defersBelow progB.head!.cmds 3).reverse = [1] := by decide
+-- a log that leaves out entry 0 is rejected
+example : (replay progB {} (init 1) (runB.take 6 ++ [⟨1, .cmdStart 2 none false⟩])).isNone = true := by decide
 
 end Props.C02
